@@ -46,7 +46,7 @@ func counts(tier string) (hist, poisoned int) {
 	if tier == "thorough" {
 		return 24000, 60
 	}
-	return 1600, 24
+	return 1200, 24
 }
 
 func (c16) Cases(tier string, seed uint64) []fw.Case {
